@@ -16,7 +16,7 @@ RULE = ('case = (body: random bytes | well-formed multipart from the harness enc
         'quote / semicolon, runs of 40-3000 backslashes / quotes / semicolons / blanks inside a parameter, one control byte at marked positions of a header line; bare CR / LF, non-UTF-8 text value, byte insert / replace / delete, junk preamble} | JSON: valid, invalid, non-object, nested '
         '10..100000 levels, non-UTF-8, BOM, empty | urlencoded text incl. stray % and non-ASCII bytes, 50-8000 fields / separators; parts that declare their own charset (known, unknown, non-text codecs, malformed labels), transfer encoding or length) x content type (matching / mismatching / missing '
         'boundary, multipart/mixed, JSON with parameters, upper case, none) x framing (Content-Length equal / short / long, chunked, truncated or corrupted '
-        'chunked) x max_memfile_size in {8..102400} x accessor sequence over {forms, files, POST, params, json, body, query}. Oracle: nothing escapes, status '
+        'chunked) x max_memfile_size in {8..102400} x accessor sequence over {forms, files, POST, params, json, body, query}; a fifth of the cases and a fixed grid are served on a worker thread (not the thread that imported the framework). Oracle: nothing escapes, status '
         'is 2xx or 4xx, nothing is written to wsgi.errors, the request finishes under a 10 s watchdog; every delivered text value / file content D occurs '
         'in the de-framed body as CRLFCRLF + D + CRLF--boundary (a part terminated by a delimiter); a delivered JSON value equals json.loads of the '
         'body. Non-trivial = the body is not a well-formed instance of its content type (mutated, truncated, invalid) or the framing is broken; distinct '
@@ -241,6 +241,18 @@ def check_case(ctx, case):
         return 'ok'
     app.route('/x', method=['POST', 'PUT', 'GET'], callback=h)
     env = make_environ(case['method'], '/x', stream=FragStream(wire, case['pattern']), content_length=cl, headers=headers, qs='q=1')
+    if case.get('thread'):
+        # served by a worker thread (what a threaded server does); join with a timeout is the watchdog there
+        import threading
+        box = {}
+        t = threading.Thread(target=lambda: box.__setitem__('r', call_app(app, env)), daemon=True)
+        t.start()
+        t.join(WATCHDOG_S)
+        if 'r' not in box:
+            raise CheckFailure(f'request served on a worker thread did not finish within {WATCHDOG_S} s: family={case["family"]} mutations={case["mutations"]} body={case["body"][:200]!r}')
+        r = box['r']
+        ctx.count('served_on_a_worker_thread')
+        return _judge(ctx, case, r, seen, logical)
     old = signal.signal(signal.SIGALRM, _alarm)
     signal.alarm(WATCHDOG_S)
     try:
@@ -252,8 +264,12 @@ def check_case(ctx, case):
     except _Hang:
         raise CheckFailure(f'request did not finish within {WATCHDOG_S} s: family={case["family"]} mutations={case["mutations"]} ctype={case["ctype"]!r} framing={case["framing"]} '
                            f'B={case["B"]} access={case["access"]} body={case["body"][:300]!r}')
+    return _judge(ctx, case, r, seen, logical)
+
+
+def _judge(ctx, case, r, seen, logical):
     what = (f'family={case["family"]} mutations={case["mutations"]} ctype={case["ctype"]!r} framing={case["framing"]} B={case["B"]} access={case["access"]} '
-            f'body={case["body"][:200]!r}{"..." if len(case["body"]) > 200 else ""}')
+            f'{"(served on a worker thread) " if case.get("thread") else ""}body={case["body"][:200]!r}{"..." if len(case["body"]) > 200 else ""}')
     if isinstance(r.escaped, _Hang):
         raise CheckFailure(f'request did not finish within {WATCHDOG_S} s: {what}')
     if r.escaped is not None:
@@ -421,8 +437,18 @@ def run(ctx):
                         ctx.guarded(check_case, {'family': 'multipart', 'body': bd, 'ctype': 'multipart/form-data; boundary=bnd', 'boundary': 'bnd', 'mutations': [['part_charset', 0, 0]],
                                                  'framing': 'length', 'fr_a': 0, 'fr_b': 1, 'chunks': [], 'B': 102400, 'access': ['POST', 'forms', 'files'], 'pattern': [], 'method': 'POST'})
         ctx.count('part_charset_grid')
+        # one malformed body of every family / framing served by a worker thread instead of the thread that imported the framework
+        for fam, bd, ct in (('json', b'{"a":', 'application/json'), ('json', b'[' * 3000, 'application/json'), ('multipart', body[:40], 'multipart/form-data; boundary=bnd'),
+                            ('multipart', body, 'multipart/form-data; boundary=bnd'), ('urlencoded', b'a=%zz&b', 'application/x-www-form-urlencoded'),
+                            ('raw', b'\xff\xfe', 'multipart/form-data; boundary=b'), ('multipart', body + body, 'multipart/form-data')):
+            for fr in ('length', 'short', 'long', 'chunked', 'chunked_trunc', 'chunked_corrupt'):
+                for acc in (['forms'], ['json'], ['POST', 'files'], ['body']):
+                    for B in (16, 102400):
+                        ctx.guarded(check_case, {'family': fam, 'body': bd, 'ctype': ct, 'boundary': 'bnd', 'mutations': [['worker_thread', 0, 0]], 'framing': fr, 'fr_a': 9, 'fr_b': 120,
+                                                 'chunks': [7], 'B': B, 'access': acc, 'pattern': [], 'method': 'POST', 'thread': True})
+        ctx.count('worker_thread_grid')
     n = 4000 if ctx.tier == 'quick' else 40000
-    ctx.hyp(case_st(), check_case, n)
+    ctx.hyp(case_st().map(lambda c: dict(c, thread=True) if len(c['body']) % 5 == 0 else c), check_case, n)
     if ctx.tier == 'thorough' and ctx.shard < 4:
         from vlib import fuzz
         parts = [{'name': 'a', 'value': b'one'}, {'name': 'f', 'filename': 'x.bin', 'ctype': 'text/plain', 'value': b'file\r\ndata--'}]
